@@ -6,6 +6,7 @@ import (
 	"encoding/json"
 	"fmt"
 	"os"
+	"strings"
 	"time"
 
 	vs "github.com/c2FmZQ/ech/vsched"
@@ -82,7 +83,7 @@ func Run(r *ev.Run, replay string) {
 	}
 	bound, maxExecs := bounds(r.Tier)
 	scs := scenarios(r.Thorough())
-	r.Rule(fmt.Sprintf("E3 stateless exploration of the real Dial (sources rewritten at check time into scheduler shims, built with -overlay) in virtual time: scenarios = 0..%d targets x per-target plan {succeed@0/1/3, fail@0/1/3, hang, resolution error, succeed@3 but 2 s slow to notice cancellation, ECH rejection with retry configs @1 followed by a retry that hangs, succeed@3 without watching the context (i.e. possibly after the per-attempt timeout), a host name whose DNS lookups take 3 s each (scheduler-aware in-memory DoH; a lookup in flight ends when its context does) and which then accepts at once, another host name on the previous target's address} x MaxConcurrency 1..3 x (delay,timeout) in {(2,5),(1,2)} x caller cancellation {never, t=0, 1, 4} (+ for <=2 targets: a PublicName from which no ECH config can be built, so that Dial fails during set-up); for each scenario ALL schedules with at most %d deviations (quick: one more for scenarios with <=2 targets; thorough: one less for 4 targets) (a deviation = any non-default choice: preemption / non-canonical thread pick, non-first ready select case, non-first order of simultaneous timers), capped at %d executions per scenario; monitors over the virtual-time event log (order, in-flight bound, staggering, per-target timeout incl. the ECH retry, first success wins, closing, prompt cancellation, no thread started by Dial finishing later than Dial's return and the last DialFunc return, none blocked forever). distinct = distinct scenarios; executions/choice points are reported separately", len(scs[len(scs)-1].Plans), bound, maxExecs))
+	r.Rule(fmt.Sprintf("E3 stateless exploration of the real Dial (sources rewritten at check time into scheduler shims, built with -overlay) in virtual time: scenarios = 0..%d targets x per-target plan {succeed@0/1/3, fail@0/1/3, hang, resolution error, succeed@3 but 2 s slow to notice cancellation, ECH rejection with retry configs @1 followed by a retry that hangs, succeed@3 without watching the context (i.e. possibly after the per-attempt timeout), a host name whose DNS lookups take 3 s each (scheduler-aware in-memory DoH; a lookup in flight ends when its context does) and which then accepts at once, another host name on the previous target's address} x MaxConcurrency 1..3 x (delay,timeout) in {(2,5),(1,2)} x caller cancellation {never, t=0, 1, 4} (+ for <=2 targets: a PublicName from which no ECH config can be built, so that Dial fails during set-up; and the same scenarios with the Dialer instantiated for an interface connection type, Dialer[io.Closer]) + families with the documented defaults, delay > timeout, a caller deadline, a caller context of the caller's own type, RequireECH, and failures whose error wraps context.Canceled while no context of Dial is cancelled; for each scenario ALL schedules with at most %d deviations (quick: one more for scenarios with <=2 targets; thorough: one less for 4 targets) (a deviation = any non-default choice: preemption / non-canonical thread pick, non-first ready select case, non-first order of simultaneous timers), capped at %d executions per scenario; monitors over the virtual-time event log (order, in-flight bound, staggering, per-target timeout incl. the ECH retry, first success wins, closing, prompt cancellation, no thread started by Dial finishing later than Dial's return and the last DialFunc return, none blocked forever). distinct = distinct scenarios; executions/choice points are reported separately", len(scs[len(scs)-1].Plans), bound, maxExecs))
 	r.Assume("computation takes zero virtual time; memory is sequentially consistent at synchronisation granularity", "addresses are IP literals (no DNS); DialFunc is a scripted fake that honours its context")
 	for i := range scs {
 		r.Eval(fmt.Sprintf("%+v", scs[i]), "")
@@ -94,7 +95,9 @@ func Run(r *ev.Run, replay string) {
 	if done != total {
 		r.Cap(fmt.Sprintf("workers explored %d of %d scenarios", done, total))
 	}
-	aggregateExecs(r)
+	if n := aggregateExecs(r); n > 0 {
+		r.Cap(fmt.Sprintf("deviation bound %d was not completed in %d of %d scenarios (execution cap per scenario)", bound, n, total))
+	}
 	r.MirrorCounters("choice_points", "states", "transitions")
 	r.MirrorCounters("executions", "traces_validated_against_impl")
 }
@@ -104,8 +107,14 @@ func runTraced(sc scenario, vec []int) (*trace, *vs.Sched) {
 }
 
 // aggregateExecs sums the execs=/points= counters the workers put into outcome labels.
-func aggregateExecs(r *ev.Run) {
+func aggregateExecs(r *ev.Run) (capped int64) {
+	defer func() {
+		r.Set("scenarios_capped", capped)
+	}()
 	r.FoldOutcomes(func(label string, n int64) (string, map[string]int64) {
+		if strings.Contains(label, "CAPPED") {
+			capped += n
+		}
 		add := map[string]int64{}
 		base := label
 		for _, part := range splitBar(label)[1:] {
@@ -123,6 +132,7 @@ func aggregateExecs(r *ev.Run) {
 		base = splitBar(label)[0]
 		return base, add
 	})
+	return
 }
 
 func splitBar(s string) []string {
